@@ -74,6 +74,72 @@ theorem sentId_setHeader (hs : Headers) (name v : List Char)
     exact h kv hkv
   simp [List.filter_append, hnil]
 
+theorem filter_setHeader_other (P : List Char → Bool) (hs : Headers) (k v : List Char) (hk : P k = false) :
+    (setHeader hs k v).filter (fun kv => P kv.1) = hs.filter (fun kv => P kv.1) := by
+  induction hs with
+  | nil => simp [setHeader, hk]
+  | cons kv hs ih =>
+    obtain ⟨k', x⟩ := kv
+    unfold setHeader
+    by_cases e : k' = k
+    · subst e; simp [hk]
+    · simp only [e, if_false, List.filter_cons, ih]
+
+/-- writing a header that `urllib` files under another key does not change what is sent under `name` -/
+theorem sentId_setHeader_other (hs : Headers) (name k v : List Char)
+    (h : capitalize k ≠ capitalize name) : sentId name (setHeader hs k v) = sentId name hs := by
+  unfold sentId
+  rw [filter_setHeader_other (fun n => capitalize n == capitalize name) hs k v (by simpa using h)]
+
+theorem any_setHeader_other (P : List Char → Bool) (hs : Headers) (k v : List Char) (hk : P k = false) :
+    (setHeader hs k v).any (fun kv => P kv.1) = hs.any (fun kv => P kv.1) := by
+  induction hs with
+  | nil => simp [setHeader, hk]
+  | cons kv hs ih =>
+    obtain ⟨k', x⟩ := kv
+    unfold setHeader
+    by_cases e : k' = k
+    · subst e; simp [hk]
+    · simp only [e, if_false, List.any_cons, ih]
+
+/-- the authenticating adapters neither add nor hide an id -/
+theorem applyAuths_keeps (P : List Char → Bool) (name : List Char) (hP : P authName = false)
+    (hn : capitalize authName ≠ capitalize name) :
+    ∀ (as : List (List Char)) (hs hs' : Headers), applyAuths as hs = some hs' →
+      hs'.any (fun kv => P kv.1) = hs.any (fun kv => P kv.1) ∧ sentId name hs' = sentId name hs := by
+  intro as
+  induction as with
+  | nil => intro hs hs' h; simp [applyAuths] at h; subst h; exact ⟨rfl, rfl⟩
+  | cons a as ih =>
+    intro hs hs' h
+    unfold applyAuths at h
+    split at h
+    · cases h
+    · obtain ⟨h1, h2⟩ := ih _ _ h
+      rw [h1, h2, any_setHeader_other P hs authName a hP, sentId_setHeader_other hs name authName a hn]
+      exact ⟨rfl, rfl⟩
+
+theorem addContentType_sent (name : List Char) (hn : capitalize ctName ≠ capitalize name)
+    (d : Bool) (hs : Headers) : sentId name (addContentType d hs) = sentId name hs := by
+  unfold addContentType
+  split
+  · exact sentId_setHeader_other hs name ctName ctJson hn
+  · rfl
+
+theorem lookup_mem {β : Type} : ∀ (l : List (List Char × β)) (k : List Char) (b : β),
+    l.lookup k = some b → ∃ k', (k', b) ∈ l := by
+  intro l
+  induction l with
+  | nil => intro k b h; simp [List.lookup] at h
+  | cons kv l ih =>
+    intro k b h
+    obtain ⟨k', b'⟩ := kv
+    unfold List.lookup at h
+    split at h
+    · cases h; exact ⟨k', by simp⟩
+    · obtain ⟨k'', hk⟩ := ih k b h
+      exact ⟨k'', by simp [hk]⟩
+
 /-! ### what one thread sends -/
 
 /-- ids sent by the requests of one thread that did not bring their own -/
